@@ -24,7 +24,7 @@ def _mentions(expr, acc):
 
 def variables_used(scn) -> set:
     used = set()
-    for op in scn.get("ops", []):
+    for op in list(scn.get("ops", [])) + list(scn.get("after", [])):
         args = (op.get("args") or op.get("do") or []) if isinstance(op, dict) else op
         for a in args:
             if isinstance(a, str):
